@@ -206,11 +206,16 @@ aggregator's queue, is the event the translator emits at the call) -/
 structure AggregatorI where
   id : Nat
   AddMaybe : List Bytes → F64 → Int → Res Bool
+  Shutdown : Res Unit
+  deriving Inhabited
 /-- `route.Route` seen from the table -/
 structure RouteI where
   id : Nat
+  Key : Bytes
   Match : Bytes → Bool
   Dispatch : Bytes → Res Unit
+  Shutdown : Res Err
+  deriving Inhabited
 structure LevelI where
   Level : Int
 /-- table/table.go `type TableConfig struct` -/
